@@ -31,10 +31,16 @@ for sid in ids:
     d = "/verif/seeded/" + sid
     meta = json.load(open(d + "/meta.json"))
     prop = meta["breaks_property"]
+    own_base = meta.get("base_patch") if not BASE else None        # a change seeded into a refactored tree carries its base
+    if own_base:
+        rc, out = sh("git -C %s apply %s" % (REPO, own_base))
+        assert rc == 0, out
     rc, out = sh("git -C %s apply %s/patch.diff" % (REPO, d))
     if rc != 0:
         print("%-50s patch does not apply%s" % (sid, " on top of the base patch" if BASE else ": " + out[:100]))
         skipped.append(sid)
+        if own_base:
+            sh("git -C %s checkout -- . ; git -C %s clean -fdq -- pytorch_wavelets" % (REPO, REPO))
         continue
     try:
         r, o = sh("cd /verif && VERIF_REPO=%s PYTHONPATH=%s ./check %s --tier quick" % (REPO, REPO, prop))
@@ -42,7 +48,7 @@ for sid in ids:
         if BASE:
             sh("git -C %s apply -R %s/patch.diff" % (REPO, d))
         else:
-            sh("git -C %s checkout -- ." % REPO)
+            sh("git -C %s checkout -- . ; git -C %s clean -fdq -- pytorch_wavelets" % (REPO, REPO))
     nv = sum(1 for l in o.splitlines() if l.startswith("VIOLATION"))
     print("%-50s %s exit=%d violations=%d" % (sid, prop, r, nv), flush=True)
     if r != 1 or nv == 0:
